@@ -59,6 +59,7 @@ Node::Node(NodeOpts opts)
     const CChainParams& chainparams = Params();
     if (!opts.datadir.empty()) {
         // use a caller-owned datadir (crash/recovery work); the temp dir made by the base class stays empty
+        fs::create_directories(fs::PathFromString(opts.datadir));
         m_args.ForceSetArg("-datadir", opts.datadir);
         gArgs.ForceSetArg("-datadir", opts.datadir);
         m_args.ClearPathCache();
@@ -117,24 +118,37 @@ Node::Node(NodeOpts opts)
     m_node.chainman = std::make_unique<ChainstateManager>(*Assert(m_node.shutdown_signal), chainman_opts, blockman_opts);
 
     if (opts.load_chainstate) {
-        auto& chainman{*m_node.chainman};
-        node::ChainstateLoadOptions options;
-        options.mempool = m_node.mempool.get();
-        options.coins_db_in_memory = opts.coins_db_in_memory;
-        options.wipe_chainstate_db = false;
-        options.prune = chainman.m_blockman.IsPruneMode();
-        options.check_blocks = m_args.GetIntArg("-checkblocks", DEFAULT_CHECKBLOCKS);
-        options.check_level = m_args.GetIntArg("-checklevel", DEFAULT_CHECKLEVEL);
-        options.require_full_verification = m_args.IsArgSet("-checkblocks") || m_args.IsArgSet("-checklevel");
-        auto [status, err] = LoadChainstate(chainman, m_kernel_cache_sizes, options);
-        if (status != node::ChainstateLoadStatus::SUCCESS) throw std::runtime_error("ck::Node LoadChainstate failed: " + err.original);
-        std::tie(status, err) = VerifyLoadedChainstate(chainman, options);
-        if (status != node::ChainstateLoadStatus::SUCCESS) throw std::runtime_error("ck::Node VerifyLoadedChainstate failed: " + err.original);
-        m_node.notifications->setChainstateLoaded(true);
-        BlockValidationState state;
-        if (!chainman.ActiveChainstate().ActivateBestChain(state)) throw std::runtime_error("ck::Node ActivateBestChain failed: " + state.ToString());
+        std::string err = Load(/*activate=*/true);
+        if (!err.empty()) throw std::runtime_error("ck::Node " + err);
     }
     m_node.validation_signals->RegisterValidationInterface(this);
+}
+
+std::string Node::Load(bool activate)
+{
+    auto& chainman{*m_node.chainman};
+    node::ChainstateLoadOptions options;
+    options.mempool = m_node.mempool.get();
+    options.coins_db_in_memory = m_opts.coins_db_in_memory;
+    options.wipe_chainstate_db = false;
+    options.prune = chainman.m_blockman.IsPruneMode();
+    options.check_blocks = m_args.GetIntArg("-checkblocks", DEFAULT_CHECKBLOCKS);
+    options.check_level = m_args.GetIntArg("-checklevel", DEFAULT_CHECKLEVEL);
+    options.require_full_verification = m_args.IsArgSet("-checkblocks") || m_args.IsArgSet("-checklevel");
+    auto [status, err] = LoadChainstate(chainman, m_kernel_cache_sizes, options);
+    if (status != node::ChainstateLoadStatus::SUCCESS) return "LoadChainstate failed (status " + std::to_string((int)status) + "): " + err.original;
+    std::tie(status, err) = VerifyLoadedChainstate(chainman, options);
+    if (status != node::ChainstateLoadStatus::SUCCESS) return "VerifyLoadedChainstate failed (status " + std::to_string((int)status) + "): " + err.original;
+    m_node.notifications->setChainstateLoaded(true);
+    if (activate) return Activate();
+    return "";
+}
+
+std::string Node::Activate()
+{
+    BlockValidationState state;
+    if (!m_node.chainman->ActiveChainstate().ActivateBestChain(state)) return "ActivateBestChain failed: " + state.ToString();
+    return "";
 }
 
 Node::~Node()
